@@ -420,6 +420,77 @@ def fault_pack_case(sh, s, d, tier, case):
     return trace
 
 
+def crafted(sh, d, case):
+    """deterministic witnesses for the two-rename window of pack (fixed little history, no generator involved)"""
+    import errno
+    import ZODB
+    from zv import recfs, clock, objs
+    from zv.crash import CrashEnum, materialise
+    from ZODB.serialize import referencesf
+    from persistent.TimeStamp import TimeStamp
+    FSM = recfs.install()
+    LOG = recfs.LOG
+    LOG.reset()
+    LOG.enabled = False
+    clock.install(clock.FakeClock())
+    hd = os.path.join(d, 'h')
+    os.makedirs(hd)
+    path = os.path.join(hd, 'Data.fs')
+    db = ZODB.DB(FSM.FileStorage(path))
+    for i in range(3):
+        with db.transaction() as c:
+            c.root()['a'] = objs.Cell('v%d' % i)
+    T = db.lastTransaction()
+    db.close()
+    ptime = TimeStamp(T).timeTime() + 0.0005
+    files0 = recfs.snapshot_dir(hd)
+    st = FSM.FileStorage(path)
+    if case['crafted'] == 'crash-between-renames':
+        LOG.reset()
+        st.pack(ptime, referencesf)
+        st.close()
+        LOG.enabled = False
+        ops = list(LOG.ops)
+        ce = CrashEnum(files0, ops, lambda p: False, False, random.Random(0))
+        scratch = os.path.join(d, 'c')
+        for tag, images, info in ce:
+            if path not in images and (path + '.old') in images and (path + '.pack') in images:
+                materialise(images, hd, scratch)
+                sh.count('crash_states_reopened')
+                fs = FSM.FileStorage(os.path.join(scratch, 'Data.fs'))
+                n = len(fs)
+                fs.close()
+                if n == 0:
+                    sh.violation('c08:crash:crash-between-pack-renames:database-reopens-empty', {'crafted': True, 'tag': tag}, case)
+                break
+    else:
+        fired = []
+
+        def fault(op):
+            if op[0] == 'rename' and str(op[1]).endswith('.pack') and not fired:
+                fired.append(1)
+                return ('raise', errno.EIO)
+            return None
+        LOG.reset()
+        LOG.fault = fault
+        try:
+            st.pack(ptime, referencesf)
+        except Exception:
+            pass
+        LOG.fault = None
+        LOG.enabled = False
+        sh.count('pack_fault_sites')
+        try:
+            st.load(b'\0' * 8)
+        except Exception as e:
+            sh.violation('c08:fault:second-pack-rename-fails:data-file-gone-and-storage-unusable',
+                         {'crafted': True, 'exc': repr(e)[:120], 'data_file_exists': os.path.exists(path)}, case)
+        try:
+            st.close()
+        except Exception:
+            pass
+
+
 def run_shard(params):
     logging.disable(logging.CRITICAL)
     sh = Shard(params)
@@ -491,6 +562,9 @@ def run_shard(params):
 def replay(case, scratch):
     logging.disable(logging.CRITICAL)
     sh = Shard({'scratch': scratch, 'budget_s': 600})
+    if case.get('crafted'):
+        guarded(sh, 'c08', case, lambda: crafted(sh, sh.fresh_dir('p'), case))
+        return sh.violations
     if case['part'] == 'schedule':
         kw = dict(case.get('kw', {}))
         if kw.get('park'):
